@@ -20,14 +20,15 @@ import (
 )
 
 type yProg struct {
-	Kind     string // cycle, fanout
-	YAML     string
-	Calls    []string
-	Conc     int
-	Parallel bool
-	Dedup    string // cycle: "" or once / when_changed on a cycle member
+	Kind      string // cycle, fanout
+	YAML      string
+	Calls     []string
+	Conc      int
+	Parallel  bool
+	Dedup     string // cycle: "" or once / when_changed on a cycle member
 	EdgeKinds []string
-	Width    int
+	Width     int
+	MaxCalls  int // cycle: the value the run uses for the MaximumTaskCall constant (a tuning knob of the system)
 }
 
 func genY(ch *vs.Choices, tier string) *yProg {
@@ -38,6 +39,13 @@ func genY(ch *vs.Choices, tier string) *yProg {
 		p.Kind = "cycle"
 		k := 1 + ch.Draw(3)
 		p.Conc = []int{0, 1, 2}[ch.Draw(3)]
+		// the call limit that cuts cycles off is 1000 in the shipped binary; most runs use a smaller one so that a
+		// cycle costs tens instead of thousands of task calls
+		p.MaxCalls = []int{5, 12, 12, 40, 40, 120, 1000}[ch.Draw(7)]
+		uniform := ""
+		if ch.Bool(1, 3) {
+			uniform = []string{"alias", "wildcard", "rooted", "plain"}[ch.Draw(4)] // every leg named the same way
+		}
 		if ch.Bool(1, 5) {
 			p.Dedup = []string{"once", "when_changed"}[ch.Draw(2)]
 		}
@@ -51,6 +59,15 @@ func genY(ch *vs.Choices, tier string) *yProg {
 		for i := 0; i < k; i++ {
 			j := (i + 1) % k
 			naming := []string{"plain", "alias", "wildcard", "rooted"}[ch.Draw(4)]
+			if uniform != "" {
+				naming = uniform
+			}
+			if uniform == "wildcard" {
+				// the cycle members themselves are wildcard tasks 'cI-*', always called as cI-x
+				refs[i] = names[j] + "-x"
+				p.EdgeKinds = append(p.EdgeKinds, "selfwildcard")
+				continue
+			}
 			switch naming {
 			case "plain":
 				refs[i] = names[j]
@@ -65,7 +82,11 @@ func genY(ch *vs.Choices, tier string) *yProg {
 		}
 		for i := 0; i < k; i++ {
 			// a task is reachable by its name, by an alias and (separately) by a wildcard twin that calls it
-			fmt.Fprintf(&sb, "  %s:\n    aliases: [al-%s]\n", names[i], names[i])
+			if uniform == "wildcard" {
+				fmt.Fprintf(&sb, "  '%s-*':\n", names[i])
+			} else {
+				fmt.Fprintf(&sb, "  %s:\n    aliases: [al-%s]\n", names[i], names[i])
+			}
 			if p.Dedup != "" && i == 0 {
 				fmt.Fprintf(&sb, "    run: %s\n", p.Dedup)
 			}
@@ -77,9 +98,14 @@ func genY(ch *vs.Choices, tier string) *yProg {
 				fmt.Fprintf(&sb, "    cmds:\n      - echo \"S|%s\"\n      - task: %s\n", names[i], yq(refs[i]))
 			}
 			// wildcard twin: "wcI-*" forwards to cI
-			fmt.Fprintf(&sb, "  'w%s-*':\n    cmds:\n      - task: %s\n", names[i], names[i])
+			if uniform != "wildcard" {
+				fmt.Fprintf(&sb, "  'w%s-*':\n    cmds:\n      - task: %s\n", names[i], names[i])
+			}
 		}
 		p.Calls = []string{"c0"}
+		if uniform == "wildcard" {
+			p.Calls = []string{"c0-x"}
+		}
 		p.YAML = sb.String()
 		return p
 	}
@@ -115,7 +141,11 @@ func genY(ch *vs.Choices, tier string) *yProg {
 func runY(t *testing.T, ch *vs.Choices, prop, tier string, render bool) *vs.RunOut {
 	out := &vs.RunOut{Reach: map[string]int{}}
 	p := genY(ch, tier)
-	out.Shape = vs.HashString(p.YAML + fmt.Sprint(p.Calls, p.Conc, p.Parallel))
+	out.Shape = vs.HashString(p.YAML + fmt.Sprint(p.Calls, p.Conc, p.Parallel, p.MaxCalls))
+	if p.MaxCalls > 0 {
+		vs.Knobs = map[string]int{"MaximumTaskCall": p.MaxCalls}
+		defer func() { vs.Knobs = nil }()
+	}
 	dir, err := newRunDir()
 	if err != nil {
 		out.HarnessError = err.Error()
@@ -246,7 +276,7 @@ func runY(t *testing.T, ch *vs.Choices, prop, tier string, render bool) *vs.RunO
 		}
 	}
 	if render {
-		out.Rendered = map[string]any{"files": map[string]string{"Taskfile.yml": p.YAML}, "config": map[string]any{"calls": p.Calls, "concurrency": p.Conc, "parallel": p.Parallel},
+		out.Rendered = map[string]any{"files": map[string]string{"Taskfile.yml": p.YAML}, "config": map[string]any{"calls": p.Calls, "concurrency": p.Conc, "parallel": p.Parallel, "MaximumTaskCall": p.MaxCalls},
 			"strategy": out.Strategy, "outcome": outcome.String(), "error": fmt.Sprint(runErr), "exit": code, "trace": traceLines(events), "steps": out.Steps}
 	}
 	return out
